@@ -316,3 +316,11 @@ package receiver
 //@   at[C03] (*receiver.Transfer).recvFile1: set ghost.rfReq = ghost.rfReq + ite(rt.Opts.DryRun, 0, 1)
 //@   loop[C03] 0: invariant [every-file-so-far-renamed] ghost.renames - old(ghost.renames) == ghost.rfReq - old(ghost.rfReq)
 //@   ensures[C03] [success-means-every-requested-file-was-renamed] err == nil ==> ghost.renames - old(ghost.renames) == ghost.rfReq - old(ghost.rfReq)
+
+// ---------------------------------------------------------------- C05: names handed to os.Root
+// An entry name is filepath.Clean()ed at receipt: it never ends in a slash
+// (the methods of os.Root in Go 1.25.0 follow a symlink in the last component
+// of a name with a trailing slash out of the root).
+//@ fieldinv receiver.File.Name: hasSuffix(v, "/") ==> v == "/"
+//@ func (*receiver.Transfer).deleteFiles$1
+//@   requires[C05] [walked-name-without-trailing-slash] !hasSuffix(path, "/")
